@@ -417,10 +417,10 @@ var _ = wal.ErrClosed
 // ---------------------------------------------------------------- C14: Close races
 
 type closeState struct {
-	everAt     map[uint64]*model.Entry // the (unique) entry ever submitted at an index
-	ackedMax   uint64                  // highest index acknowledged so far
-	issuedMax  uint64                  // highest index submitted so far
-	delIssued  uint64                  // highest index covered by an issued head truncation
+	everAt     everAtList // the (unique) entry ever submitted at an index
+	ackedMax   uint64     // highest index acknowledged so far
+	issuedMax  uint64     // highest index submitted so far
+	delIssued  uint64     // highest index covered by an issued head truncation
 	first0     uint64
 	tasksUp    int
 	tasksEnd   int
@@ -457,7 +457,7 @@ func (ex *Exec) clAppender(n int) {
 			logs = append(logs, e.Log())
 		}
 		for _, e := range es {
-			cl.everAt[e.Index] = e
+			cl.everAt.set(e.Index, e)
 		}
 		cl.issuedMax = es[len(es)-1].Index
 		err := ex.callR(func() error { return ex.w.StoreLogs(logs) })
@@ -541,7 +541,7 @@ func (ex *Exec) clReader(n int) {
 				}
 				continue
 			}
-			e := cl.everAt[idx]
+			e := cl.everAt.get(idx)
 			if e == nil {
 				ex.violate("racing-call-result", "racing-wrong-data", "GetLog(%d) returned an entry for an index never submitted", idx)
 				return
@@ -610,7 +610,7 @@ func (ex *Exec) clStable(n int) {
 // runCloseRace is the C14 flow.
 func (ex *Exec) runCloseRace() {
 	cl := ex.cl
-	cl.everAt = map[uint64]*model.Entry{}
+	cl.everAt = nil
 	// seed
 	for ex.pc < len(ex.plan.Ops) && !ex.stop() {
 		i := ex.pc
@@ -627,7 +627,7 @@ func (ex *Exec) runCloseRace() {
 		return
 	}
 	for i, e := range st.Ent {
-		cl.everAt[i] = e
+		cl.everAt.set(i, e)
 	}
 	cl.first0, cl.ackedMax, cl.issuedMax = st.First, st.Last, st.Last
 	g := ex.g
@@ -736,4 +736,22 @@ func (ex *Exec) runCloseRace() {
 	ex.w = w2
 	ex.or.Restart()
 	ex.observeAndCheck("after-close-reopen", false, true)
+}
+
+// everAtList: index -> entry, a slice instead of a map because several tasks
+// touch it (serially) and Go maps carry race-detector hooks in the runtime.
+type everAtList []*model.Entry
+
+func (l everAtList) get(i uint64) *model.Entry {
+	if i < uint64(len(l)) {
+		return l[i]
+	}
+	return nil
+}
+
+func (l *everAtList) set(i uint64, e *model.Entry) {
+	for uint64(len(*l)) <= i {
+		*l = append(*l, nil)
+	}
+	(*l)[i] = e
 }
